@@ -138,11 +138,24 @@ func init() {
 	for _, id := range []string{"C09", "C10"} {
 		id := id
 		regProp(&propDef{
-			id:   id,
-			gen:  func(seed uint64, th bool) *Plan { return genTxPlan(id, seed, th) },
-			chk:  newSeqChecker,
-			rule: "1-3 connections run transaction programs (WATCH/UNWATCH, MULTI, queued commands incl. failing, rejected and blocking ones, nested MULTI, WATCH inside MULTI, EXEC/DISCARD with and without MULTI, follow-up commands) taking turns at command granularity as the tape decides; every reply and the stored state are compared with the model's session automaton and per-key modification counters; non-trivial = an EXEC with a non-empty queue was answered and (C10) a watched key was written or expired between WATCH and EXEC; distinct = distinct scheduler event sequence",
+			id: id,
+			gen: func(seed uint64, th bool) *Plan {
+				if seed%5 < 2 {
+					return genConcTxPlan(id, seed, th)
+				}
+				return genTxPlan(id, seed, th)
+			},
+			chk: func(p *Plan) Checker {
+				if p.Class == "conc" {
+					return newLinChecker(p)
+				}
+				return newSeqChecker(p)
+			},
+			rule: "class turns (3 of 5 runs): 1-3 connections run transaction programs (WATCH/UNWATCH, MULTI, queued commands incl. failing, rejected and blocking ones, nested MULTI, WATCH inside MULTI, EXEC/DISCARD with and without MULTI, follow-up commands) taking turns at command granularity as the tape decides; every reply and the stored state are compared with the model's session automaton and per-key modification counters; non-trivial = an EXEC with a non-empty queue was answered and (C10) a watched key was written or expired between WATCH and EXEC; class conc (2 of 5 runs): 2-3 connections run WATCH / MULTI / queued read-modify-write commands / EXEC and plain commands on 2-3 shared keys truly concurrently (every emulator goroutine scheduled from the tape at each lock boundary and store primitive), and the history with EXEC as one operation plus a final read-back is checked for linearizability against the model with porcupine; non-trivial = commands of different connections overlapped, an EXEC was answered and porcupine decided; distinct = distinct scheduler event sequence",
 			nontrivial: func(res *RunResult) bool {
+				if res.Plan != nil && res.Plan.Class == "conc" {
+					return res.Extra["overlaps"] >= 1 && res.Extra["porcupine-ok"] == 1 && res.Extra["exec-answered"] >= 1
+				}
 				if id == "C10" {
 					return res.Extra["exec-nonempty"] >= 1 && res.Extra["watched-touched"] >= 1
 				}
@@ -153,7 +166,7 @@ func init() {
 			quickSeconds:    60,
 			thoroughSeconds: 900,
 			level:           "exploration",
-			explanation:     "Turn-taking histories over several connections: the tape decides whose command runs next, so every position of a modification relative to WATCH/MULTI/EXEC of another connection is reachable, while the model stays an exact oracle. Atomicity of EXEC against truly concurrent commands is covered by the concurrent class of C09 (linearizability) and by C08.",
+			explanation:     "Turn-taking histories over several connections: the tape decides whose command runs next, so every position of a modification relative to WATCH/MULTI/EXEC of another connection is reachable, while the model stays an exact oracle. Atomicity of EXEC against truly concurrent commands and EXECs is the conc class: invoke/return are scheduler steps and EXEC is a single operation of the sequential model (session automaton with queue and watch versions in the porcupine state).",
 			assumptions: []string{
 				"the reference model's transaction automaton follows the Redis 7 documentation (queue-time rejection => EXECABORT; runtime errors stay in place; WATCH inside MULTI and nested MULTI are errors that keep the transaction)",
 				"a command with unusable arguments inside MULTI may be answered QUEUED (Redis) or rejected at once (argument validation before queueing); the observed reply decides which continuation the model follows",
